@@ -142,6 +142,9 @@ class OptDomain(TagDomain):
   def summary(self, target, args, kwargs, node, st):
     if target.name == '_initialize_components':
       return V(frozenset(['init']))
+    if target.name == '_prepare_inputs' and target.cls is not None:
+      return V(EMPTY, elts=(V(frozenset(['data:X']), origin=('prep', 'X')),
+                            V(frozenset(['data:y']), origin=('prep', 'y'))))
     return None
 
   def method_call(self, recv, name, args, kwargs, node, st, eng):
@@ -189,6 +192,22 @@ def rule_optimizer_handoff(repo, rep):
       rep.unknown(R, key, site(f), 'no call to scipy.optimize.minimize')
       continue
     for (x0, s, kwargs, args) in dom.min_calls:
+      if cname == 'MLKR':
+        Rd = 'R-FLOW:objective-sees-validated-data'
+        rep.rule(Rd, 'the (X, y) handed to the MLKR objective are the very '
+                 'arrays returned by _prepare_inputs (no cast, no copy with '
+                 'another dtype)')
+        at = kwargs.get('args') or (args[2] if len(args) > 2 else None)
+        origins = [e.origin for e in at.elts] if at is not None and \
+            at.elts is not None else None
+        if origins == [('prep', 'X'), ('prep', 'y')]:
+          rep.derived(Rd, key, s)
+        elif origins is None:
+          rep.unknown(Rd, key, s, 'objective arguments not recognised')
+        else:
+          rep.refuted(Rd, key, s, 'the objective does not receive the '
+                      'validated (X, y) themselves (a derived / cast copy is '
+                      'passed)')
       if x0 is not None and 'init' in x0:
         rep.derived(R, key + ':x0', s)
       else:
